@@ -47,42 +47,40 @@ Definition dropped_action (o : option (item A)) : list A :=
 Inductive sphase := SStart | SBlockWait | SDo2 | SDo3.
 
 Inductive sresult :=
-| SMore (ph : sphase)                       (* parked at the next point *)
-| SDone (ok : bool) (dropped : list A).     (* send returned Ok/Err; actions counted as dropped *)
+| SMore (ph : sphase)          (* parked at the next point *)
+| SDone (ok : bool).           (* send returned Ok/Err *)
 
-(* None = not enabled (only the blocking send on a full queue) *)
-Definition send_phase (c : chan) (x : item A) (ph : sphase) : option (chan * sresult) :=
+(* None = not enabled (only the blocking send on a full queue); the third component lists the
+   actions this phase counted as dropped *)
+Definition send_phase (c : chan) (x : item A) (ph : sphase) : option (chan * sresult * list A) :=
   match ph with
   | SStart =>
       match pol c with
-      | Block => Some (c, SMore SBlockWait)
+      | Block => Some (c, SMore SBlockWait, [])
       | DropOldest =>
           match try_send c x with
-          | Some c' => Some (c', SDone true [])
-          | None => Some (c, SMore SDo2)
+          | Some c' => Some (c', SDone true, [])
+          | None => Some (c, SMore SDo2, [])
           end
       | DropLatest =>
           match try_send c x with
-          | Some c' => Some (c', SDone true [])
-          | None => Some (c, SDone false (dropped_action (Some x)))
+          | Some c' => Some (c', SDone true, [])
+          | None => Some (c, SDone false, dropped_action (Some x))
           end
       end
   | SBlockWait =>
       match send_block c x with
-      | Some c' => Some (c', SDone true [])
+      | Some c' => Some (c', SDone true, [])
       | None => None
       end
   | SDo2 =>
-      let '(old, c') := try_recv c in Some (c', SMore SDo3)
+      let '(old, c') := try_recv c in Some (c', SMore SDo3, dropped_action old)
   | SDo3 =>
       match try_send c x with
-      | Some c' => Some (c', SDone true [])
-      | None => Some (c, SDone false [])
+      | Some c' => Some (c', SDone true, [])
+      | None => Some (c, SDone false, [])
       end
   end.
-
-(* what phase SDo2 counts as dropped (the evicted head, if it was an action) *)
-Definition do2_dropped (c : chan) : list A := dropped_action (fst (try_recv c)).
 
 (* ---- the whole send with no consumer running in between (used for bursts, C06) ---------- *)
 Definition send_seq (c : chan) (x : item A) : option (chan * bool * list A) :=
